@@ -44,7 +44,12 @@ impl Builder {
 
     /// Write spectrum to stdout.
     pub fn write_to_stdout<S: State>(self, spectrum: &Spectrum<S>) -> io::Result<()> {
-        self.write(&mut io::stdout().lock(), spectrum)
+        use io::Write as _;
+
+        let mut stdout = io::stdout().lock();
+        self.write(&mut stdout, spectrum)?;
+        // Stdout is line-buffered, so binary output may still be pending; flush to surface errors
+        stdout.flush()
     }
 
     /// Write spectrum to path.
